@@ -187,7 +187,19 @@ class NoiseWorld(World):
             noisy = sorted(self.models[mi % len(self.models)]["errors"])
             return {"k": "dm", "m": mi, "gates": self._gen_circuit(rng, n, noisy), "n": n}
         bi = rng.randrange(8)
-        noisy = sorted(self.backends[bi % len(self.backends)]["m"]["errors"])
+        be = self.backends[bi % len(self.backends)]
+        noisy = sorted(be["m"]["errors"])
+        late = sorted(g for g in be["m"]["errors"] if g not in be["snap"])
+        if late and rng.random() < 0.5:
+            # the model was extended after the backend was created: circuits whose only noisy gates are the late ones
+            n = max(n, 2) if cfg["max_width"] >= 2 else n
+            gates = [["Y", [rng.randrange(n)], None, "", False]] if rng.random() < 0.5 else []
+            for _ in range(rng.randint(1, 3)):
+                g = self._gate_of_name(rng, rng.choice(late), n)
+                if g is not None:
+                    gates.append(g)
+            if gates:
+                return {"k": "sim", "b": bi, "gates": gates, "n": n}
         gates = self._gen_circuit(rng, n, noisy)
         if r < 0.72:
             return {"k": "sim", "b": bi, "gates": gates, "n": n}
@@ -237,8 +249,7 @@ class NoiseWorld(World):
             mi = op["m"] % len(self.models)
             me = self.models[mi]
             if any(be["m"] is me for be in self.backends):
-                ctx.outcome(k, "skipped-model-already-bound")    # whether a backend sees later edits of its model is not specified
-                return V
+                ctx.probe("C19.model_extended_after_binding")
             dup = any(nt == op["type"] for nt, _ in me["errors"].get(op["gate"], []))
             prm = list(op["params"]) if op["type"] == "pauli" else float(op["params"])
             try:
@@ -266,7 +277,10 @@ class NoiseWorld(World):
             except Exception as ex:
                 ctx.outcome(k, "refused-unexpectedly")
                 return [Violation("C19", "unexpected-refusal", "get_backend(noise_model)", {"exception": repr(ex)[:200], "op": op})]
-            self.backends.append({"b": b, "m": me, "ns": int(op["ns"])})
+            import copy
+            # Whether a backend follows later additions to its model ("live") or keeps the model as it was when attached
+            # ("snap") is not stated by the property: both are admitted, but a backend has to stick to one of them.
+            self.backends.append({"b": b, "m": me, "ns": int(op["ns"]), "snap": copy.deepcopy(me["errors"]), "sem": {"live", "snap"}})
             self.backends = self.backends[-3:]
             ctx.outcome(k, "ok")
             return V
@@ -312,14 +326,17 @@ class NoiseWorld(World):
             return V
         be = self.backends[op["b"] % len(self.backends)]
         me = be["m"]
-        if not self._model_valid(me["errors"]):
+        sems = self._semantics(be)
+        if not all(self._model_valid(e) for _, e in sems):
             ctx.outcome(k, "skipped-invalid-model")
             return V
         b, ns = be["b"], be["ns"]
         if k == "simm":
-            return self._simm(op, b, ns, me, circ, snap)
-        rho = noisy_density(gates_j, n, me["errors"])
-        diag = {R.bitstr(i, n): float(rho[i, i].real) for i in range(2 ** n) if rho[i, i].real > 1e-13}
+            prep = self._simm_run(op, b, ns, sems, circ)
+            if isinstance(prep, list):
+                return prep
+            verdicts = {name: self._simm_judge(op, b, ns, errs, circ, snap, prep) for name, errs in sems}
+            return self._settle(be, verdicts)
         if k == "sim":
             try:
                 f, _ = b.simulate(circ)
@@ -330,18 +347,8 @@ class NoiseWorld(World):
             ctx.check("C19.sampled")
             self.sig.add(("sim", n, ns, len(me["errors"])))
             f = {kk: float(v) for kk, v in f.items()}
-            if not D.is_shot_histogram(f, ns) or any(len(kk) != n for kk in f):
-                return [Violation("C19", "not-a-shot-histogram", "simulate(noisy)", {"frequencies": dict(list(f.items())[:6]), "n_shots": ns})]
-            for kk in f:
-                if diag.get(kk, 0.0) < 1e-12:
-                    return [Violation("C19", "sample-outside-support", "simulate(noisy)", {"sample": kk, "errors": me["errors"], "gates": gates_j})]
-            for kk, p in diag.items():
-                if not D.sigma_ok(f.get(kk, 0.0), p, ns):
-                    return [Violation("C19", "sampled-distribution-differs", "simulate(noisy)", {"bitstring": kk, "p": p, "f": f.get(kk, 0.0), "n_shots": ns,
-                                                                                               "errors": me["errors"], "gates": gates_j})]
-            if b.n_shots != ns:
-                V.append(Violation("C19", "backend-configuration-changed", "simulate(noisy)", {"n_shots": b.n_shots, "expected": ns}))
-            return V
+            verdicts = {name: self._judge_sim(f, n, ns, gates_j, errs, b) for name, errs in sems}
+            return self._settle(be, verdicts)
         if k == "expval":
             from tangelo.toolboxes.operators import QubitOperator
             val = {}
@@ -349,7 +356,7 @@ class NoiseWorld(World):
                 t = tuple(sorted((int(q), str(p)) for q, p in tj if q < n))
                 val[t] = val.get(t, 0.0) + float(c)
             # the basis-change rotations (RX, RY) would themselves be noisy: then only Z-type words are judged
-            if any(g in me["errors"] for g in ("RX", "RY")):
+            if any(g in errs for _, errs in sems for g in ("RX", "RY")):
                 val = {t: c for t, c in val.items() if all(p == "Z" for _, p in t)}
             if not any(t for t in val):
                 ctx.outcome(k, "skipped")
@@ -364,32 +371,86 @@ class NoiseWorld(World):
             ctx.outcome(k, "ok")
             ctx.check("C19.expectation")
             self.sig.add(("expval", n, ns, len(val)))
-            exact = float(sum(c * np.trace(rho @ M.dense_word(t, n)).real for t, c in val.items()))
-            nz = [(t, c) for t, c in val.items() if t]
-            L = math.log(2 * max(1, len(nz)) / 1e-10)
-            bound = 1e-9
-            for t, c in nz:
-                p = float(np.trace(rho @ M.dense_word(t, n)).real)
-                bound += abs(c) * (math.sqrt(2 * max(1 - p * p, 0) * L / ns) + 4 * L / (3 * ns))
-            if abs(complex(got).real - exact) > bound or abs(complex(got).imag) > 1e-9:
-                V.append(Violation("C19", "noisy-expectation-outside-statistical-bound", "get_expectation_value(noisy)",
-                                   {"got": complex(got), "exact": exact, "bound": bound, "n_shots": ns, "errors": me["errors"], "gates": gates_j, "terms": op["terms"]}))
-            return V
+            verdicts = {}
+            for name, errs in sems:
+                rho = noisy_density(gates_j, n, errs)
+                exact = float(sum(c * np.trace(rho @ M.dense_word(t, n)).real for t, c in val.items()))
+                nz = [(t, c) for t, c in val.items() if t]
+                L = math.log(2 * max(1, len(nz)) / 1e-10)
+                bound = 1e-9
+                for t, c in nz:
+                    p = float(np.trace(rho @ M.dense_word(t, n)).real)
+                    bound += abs(c) * (math.sqrt(2 * max(1 - p * p, 0) * L / ns) + 4 * L / (3 * ns))
+                vv = []
+                if abs(complex(got).real - exact) > bound or abs(complex(got).imag) > 1e-9:
+                    vv.append(Violation("C19", "noisy-expectation-outside-statistical-bound", "get_expectation_value(noisy)",
+                                        {"got": complex(got), "exact": exact, "bound": bound, "n_shots": ns, "errors": errs, "gates": gates_j, "terms": op["terms"]}))
+                verdicts[name] = vv
+            return self._settle(be, verdicts)
         raise HarnessError(k)
 
-    def _simm(self, op, b, ns, me, circ, snap):
-        """Noisy simulation of circuits with mid-circuit MEASURE gates: unconditioned, recorded, and post-selected."""
-        ctx, V, n, gates_j, mode = self.ctx, [], op["n"], op["gates"], op["mode"]
-        br = noisy_branches(gates_j, n, me["errors"])
+    def _semantics(self, be):
+        """Admissible readings of 'the model attached to this backend' that are still consistent with what it has shown."""
+        live, snap = be["m"]["errors"], be["snap"]
+        if live == snap:
+            return [("live", live)]
+        out = []
+        if "live" in be["sem"]:
+            out.append(("live", live))
+        if "snap" in be["sem"]:
+            out.append(("snap", snap))
+        return out
+
+    def _settle(self, be, verdicts):
+        passing = [name for name, v in verdicts.items() if not v]
+        if passing:
+            if len(passing) < len(verdicts):
+                self.ctx.probe("C19.binding_semantics_decided." + passing[0])
+                be["sem"] = set(passing)
+            return []
+        names = list(verdicts)
+        V = list(verdicts[names[0]])
+        if len(be["sem"]) < 2 and be["m"]["errors"] != be["snap"]:
+            # the other reading was ruled out by an earlier result of this very backend
+            for v in V:
+                v.detail["note"] = "backend earlier behaved as '%s' (model %s), now contradicts it" % (
+                    names[0], "followed after attachment" if names[0] == "live" else "as attached")
+        return V
+
+    def _judge_sim(self, f, n, ns, gates_j, errs, b):
+        rho = noisy_density(gates_j, n, errs)
+        diag = {R.bitstr(i, n): float(rho[i, i].real) for i in range(2 ** n) if rho[i, i].real > 1e-13}
+        if not D.is_shot_histogram(f, ns) or any(len(kk) != n for kk in f):
+            return [Violation("C19", "not-a-shot-histogram", "simulate(noisy)", {"frequencies": dict(list(f.items())[:6]), "n_shots": ns})]
+        for kk in f:
+            if diag.get(kk, 0.0) < 1e-12:
+                return [Violation("C19", "sample-outside-support", "simulate(noisy)", {"sample": kk, "errors": errs, "gates": gates_j})]
+        for kk, p in diag.items():
+            if not D.sigma_ok(f.get(kk, 0.0), p, ns):
+                return [Violation("C19", "sampled-distribution-differs", "simulate(noisy)", {"bitstring": kk, "p": p, "f": f.get(kk, 0.0), "n_shots": ns,
+                                                                                           "errors": errs, "gates": gates_j})]
+        if b.n_shots != ns:
+            return [Violation("C19", "backend-configuration-changed", "simulate(noisy)", {"n_shots": b.n_shots, "expected": ns})]
+        return []
+
+    def _simm_run(self, op, b, ns, sems, circ):
+        """Noisy simulation of circuits with mid-circuit MEASURE gates: unconditioned, recorded, and post-selected.
+        Returns the observed records, or a list (violations / nothing) when there is nothing to judge."""
+        ctx, n, gates_j, mode = self.ctx, op["n"], op["gates"], op["mode"]
         n_meas = sum(1 for j in gates_j if j[0] == "MEASURE")
         kw, desired = {}, None
         if mode == "save":
             kw = {"save_mid_circuit_meas": True}
         elif mode == "desired":
-            cands = sorted(s for s, r in br.items() if np.trace(r).real >= 0.05)
+            cands = None
+            for _, errs in sems:
+                br = noisy_branches(gates_j, n, errs)
+                c = set(s for s, r in br.items() if np.trace(r).real >= 0.05)
+                cands = c if cands is None else cands & c
+            cands = sorted(cands)
             if not cands:
                 ctx.outcome("simm", "skipped")
-                return V
+                return []
             desired = cands[op["pick"] % len(cands)]
             kw = {"desired_meas_result": desired}
         site = "simulate(noisy,%s)" % mode
@@ -397,12 +458,21 @@ class NoiseWorld(World):
             f, _ = b.simulate(circ, **kw)
         except Exception as ex:
             ctx.outcome("simm", "refused-unexpectedly")
-            return [Violation("C19", "unexpected-refusal", site, {"exception": repr(ex)[:200], "op": op, "errors": me["errors"]})]
+            return [Violation("C19", "unexpected-refusal", site, {"exception": repr(ex)[:200], "op": op})]
         ctx.outcome("simm", "ok:" + mode)
         ctx.check("C19.sampled_with_mid_circuit_measurement")
         ctx.probe("C19.noisy_mid_circuit." + mode)
-        self.sig.add(("simm", mode, n, n_meas, len(me["errors"])))
-        f = {kk: float(v) for kk, v in f.items()}
+        self.sig.add(("simm", mode, n, n_meas))
+        return {"f": {kk: float(v) for kk, v in f.items()}, "desired": desired, "n_meas": n_meas,
+                "allf": {kk: float(v) for kk, v in (getattr(b, "all_frequencies", None) or {}).items()},
+                "mid": {kk: float(v) for kk, v in (getattr(b, "mid_circuit_meas_freqs", None) or {}).items()}}
+
+    def _simm_judge(self, op, b, ns, errors, circ, snap, rec):
+        V, n, gates_j, mode = [], op["n"], op["gates"], op["mode"]
+        me = {"errors": errors}
+        site = "simulate(noisy,%s)" % mode
+        br = noisy_branches(gates_j, n, errors)
+        f, desired, n_meas = rec["f"], rec["desired"], rec["n_meas"]
         if desired is not None:
             rho = br[desired] / np.trace(br[desired]).real
         else:
@@ -426,17 +496,17 @@ class NoiseWorld(World):
             # As for noiseless MEASURE-only programs (DESIGN 12, F6): with a shot budget the implementation draws n_shots raw
             # shots and post-selects them.  The records must be an exact account of that: all_frequencies a histogram of
             # n_shots shots following the joint law, the returned frequencies its post-selected, renormalised recount.
-            allf = {kk: float(v) for kk, v in (b.all_frequencies or {}).items()}
+            allf = rec["allf"]
             V += judge(allf, joint, n_meas + n, "all_frequencies")
             if V:
                 return V
             mass = sum(v for kk, v in allf.items() if kk[:n_meas] == desired)
-            rec = {}
+            recount = {}
             for kk, v in allf.items():
                 if kk[:n_meas] == desired:
-                    rec[kk[n_meas:]] = rec.get(kk[n_meas:], 0.0) + v / mass
-            if any(abs(rec.get(kk, 0) - f.get(kk, 0)) > 1e-9 for kk in set(rec) | set(f)):
-                V.append(Violation("C19", "post-selected-frequencies-differ-from-recount", site, {"returned": f, "recount": rec, "desired": desired}))
+                    recount[kk[n_meas:]] = recount.get(kk[n_meas:], 0.0) + v / mass
+            if any(abs(recount.get(kk, 0) - f.get(kk, 0)) > 1e-9 for kk in set(recount) | set(f)):
+                V.append(Violation("C19", "post-selected-frequencies-differ-from-recount", site, {"returned": f, "recount": recount, "desired": desired}))
             for kk in f:
                 if diag.get(kk, 0.0) < 1e-12:
                     V.append(Violation("C19", "sample-outside-support", site + ":frequencies", {"sample": kk, "desired": desired, "gates": gates_j, "errors": me["errors"]}))
@@ -450,8 +520,7 @@ class NoiseWorld(World):
         if V:
             return V
         if mode == "save":
-            allf = {kk: float(v) for kk, v in (b.all_frequencies or {}).items()}
-            mid = {kk: float(v) for kk, v in (b.mid_circuit_meas_freqs or {}).items()}
+            allf, mid = rec["allf"], rec["mid"]
             V += judge(allf, joint, n_meas + n, "all_frequencies")
             V += judge(mid, middist, n_meas, "mid_circuit_meas_freqs")
             if not V:
